@@ -212,12 +212,14 @@ def run_shard(ctx):
                 toks = []
             if len(toks) > 2:
                 ptext = text
-                for _ in range(r.choice([1, 1, 2])):
-                    # (mostly after a name, a number or a closing parenthesis: where an operator could follow)
-                    ends = [x for x in toks[:-1] if x[0] in ('ID', 'INTEGER', 'FLOAT', 'RPAREN', 'QUOTE_STRING')]
-                    t_ = r.choice(ends) if ends and r.random() < 0.7 else toks[r.randrange(len(toks) - 1)]
+                # (mostly after a name, a number or a closing parenthesis: where an operator could follow); positions are token ends of the
+                # ORIGINAL text, applied from the right so that they stay valid - a comment never lands inside a token (IS NOT, NOT IN are one)
+                ends = [x for x in toks[:-1] if x[0] in ('ID', 'INTEGER', 'FLOAT', 'RPAREN', 'QUOTE_STRING')]
+                picks = {(r.choice(ends) if ends and r.random() < 0.7 else toks[r.randrange(len(toks) - 1)])[3] for _ in range(r.choice([1, 1, 2]))}
+                for at in sorted(picks, reverse=True):
                     cm = r.choice(['--1\n', '--x\n', '-- c\n', '/*c*/', '/* -- */', '--\n', '--+1\n', '/*1*/', '-- ;\n', '/**/', '--1\n', '--(1)\n', '--a\n', '--.5\n'])
-                    ptext = ptext[:t_[3]] + r.choice([' ', '']) + cm + ptext[t_[3]:] if ptext[t_[3]:t_[3] + 1] in (' ', '') else ptext
+                    if ptext[at:at + 1] in (' ', ''):
+                        ptext = ptext[:at] + r.choice([' ', '']) + cm + ptext[at:]
                 pdialect = r.choice(['mindsdb', 'mysql', 'mysql', 'sqlite', 'sqlite'])
                 acc.count('commented_variants')
         try:
